@@ -6,7 +6,8 @@ cd /verif
 dir=$1; bin=${2:-/verif/bin/ordalint}; lanes=${3:-8}
 known=${VERIF_KNOWN:-/verif/known_findings.json}
 head=$(git -C /repo rev-parse HEAD)
-ids=$(ls -d $dir/*/ | xargs -n1 basename | grep -v '^_')
+rm -f /tmp/fs_lane_*.txt
+ids=$(ls -d $dir/*/ | xargs -n1 basename | grep -v "^_")
 for i in $(seq 1 $lanes); do
   wt=/tmp/lw$i
   [ -d $wt ] || git -C /repo worktree add --detach $wt $head -q
